@@ -123,6 +123,8 @@ KANI_GROUPS = {
             dict(name="vk_smm_l3_guarded", kind="bounded(L=3, 5 steps over a 5-letter alphabet, no negative zero)", timeout=1800, tier="thorough", props=["C04"]),
             dict(name="vk_reversal_upper_l3", kind="bounded((1,1), 6 steps over a 5-letter alphabet)", timeout=600, props=["C14"], witness_units=["reversal"]),
             dict(name="vk_reversal_lower_l3", kind="bounded((1,1), 6 steps over a 5-letter alphabet)", timeout=600, props=["C14"], witness_units=["reversal"]),
+            dict(name="vk_reversal_upper_l5", kind="bounded((2,2), 10 steps over 3 levels)", timeout=600, props=["C14"], witness_units=["reversal"]),
+            dict(name="vk_reversal_lower_l5", kind="bounded((2,2), 10 steps over 3 levels)", timeout=600, props=["C14"], witness_units=["reversal"]),
             dict(name="vk_reversal_upper_warmup_l3", kind="bounded((1,1), the 3 warm-up steps over a 5-letter alphabet)", timeout=600, props=["C14"], witness_units=["reversal"]),
             dict(name="vk_reversal_lower_warmup_l3", kind="bounded((1,1), the 3 warm-up steps over a 5-letter alphabet)", timeout=600, props=["C14"], witness_units=["reversal"]),
             dict(name="vk_reversal_upper_warmup_l4", kind="bounded((2,1), the first 5 steps over a 5-letter alphabet)", timeout=600, props=["C14"], witness_units=["reversal"]),
